@@ -10,6 +10,7 @@ import (
 	"crypto/sha512"
 	"encoding/base64"
 	"net/http"
+	"net/url"
 	"strconv"
 	"strings"
 	"time"
@@ -374,3 +375,5 @@ type (
 	request        = http.Request
 	handlerFunc    = http.HandlerFunc
 )
+
+func stubsQueryEscape(s string) string { return url.QueryEscape(s) }
